@@ -83,7 +83,21 @@ def analyse(facts, tier):
                 e_.refine(c['cnd'], True, s1); e_.refine(c['cnd'], False, s2)
                 cn = strip(c['cnd'])
                 # which branch is the key-down one: condition `sustained == Sustain_None`
-                keydown_true = cn.get('k') == 'BinaryOperator' and cn['op'] == '==' and mentions(cn['l'], member_named('sustained')) and const_of(cn['r']) == 0
+                def is_none_test(y):
+                    y = strip(y)
+                    return y.get('k') == 'BinaryOperator' and y['op'] == '==' and mentions(y['l'], member_named('sustained')) and const_of(y['r']) == 0
+                disj = []
+                def flat_or(y):
+                    y = strip(y)
+                    if y.get('k') == 'BinaryOperator' and y.get('op') == '||':
+                        flat_or(y['l']); flat_or(y['r'])
+                    else:
+                        disj.append(y)
+                flat_or(cn)
+                keydown_true = any(is_none_test(y) for y in disj)
+                probes['keydown_disjuncts'] = [show(y) for y in disj]
+                # the other disjuncts must say "the key is still down": the negated is_end() of a find_activenote() result
+                probes['keydown_by_lookup'] = any(y.get('k') == 'UnaryOperator' and y.get('op') == '!' and short(callee_name(strip(y.get('e')))) == 'is_end' for y in disj)
                 a, b2 = e_.ev(c['l'], s1), e_.ev(c['r'], s2)
                 probes['dec']['key-down' if keydown_true else 'pedal-held'] = a
                 probes['dec']['pedal-held' if keydown_true else 'key-down'] = b2
@@ -140,6 +154,10 @@ def analyse(facts, tier):
     obls.append(Obl('C06.R1', g.name, 'pedal-held > key-down', g.loc, 'discharged' if ok else 'finding',
                     why='min score with one pedal-held user %d > max score with one key-down user %d' % (min_ped1, max_key1) if ok else
                     'a pedal-held note (score down to %d) is not always taken before a key-down note (score up to %d)' % (min_ped1, max_key1), detail=detail))
+    okl = bool(probes.get('keydown_by_lookup'))
+    obls.append(Obl('C06.R1', g.name, 'the pedal-held price needs a released key', g.loc, 'discharged' if okl else 'finding',
+                    why='the key-down arm is taken for sustained == None or when the note is still among the active notes: %s' % ' || '.join(probes.get('keydown_disjuncts', [])) if okl else
+                    'the cheap pedal-held price is charged for every user with a sustain mark: a sostenuto-marked note whose key is still down competes with released pedal-held notes and is displaced first when it is older'))
     ok = ped.lo > bonus and key.lo > bonus
     obls.append(Obl('C06.R1', g.name, 'each further user lowers the score', g.loc, 'discharged' if ok else 'finding',
                     why='per-user decrement >= %d exceeds the per-user bonus <= %d' % (min(ped.lo, key.lo), bonus) if ok else 'a user can raise the score (decrement %d, bonus %d)' % (min(ped.lo, key.lo), bonus)))
